@@ -2117,3 +2117,14 @@ M("C20-modules-by-hash-guarded-by-the-other-name", "C20", F_DBX,
 M("C20-benign-modules-by-hash-guard-reordered", "C20", F_DBX,
   "  if (def->num_unique_names > 0 && def->library_hash_name != nullptr) {", "  if (def->library_hash_name != nullptr && def->num_unique_names > 0) {",
   benign=True)
+
+# ---- R12.11 (F-C12c: count used without testing the stream)
+F_CO = "src/interrogatedb/interrogateComponent.cxx"
+M("C12-alt-name-count-used-untested", "C12", F_CO,
+  "  in >> num_alt_names;\n  if (in.fail()) {\n    return;\n  }\n", "  in >> num_alt_names;\n",
+  expect="R12.11|InterrogateComponent::input|num_alt_names|")
+M("C12-function-count-used-untested", "C12", F_DBX,
+  "    in >> num_functions;\n    if (in.fail()) {\n      return false;\n    }\n", "    in >> num_functions;\n",
+  expect="R12.11|InterrogateDatabase::read_new|num_functions|")
+M("C12-benign-alt-name-count-initialised-too", "C12", F_CO,
+  "  int num_alt_names;\n  in >> num_alt_names;\n", "  int num_alt_names = 0;\n  in >> num_alt_names;\n", benign=True)
